@@ -42,6 +42,9 @@ OPS = {"add": operator.add, "sub": operator.sub, "mul": operator.mul, "lt": oper
 LOGIC = {"and": lambda a, b: a and b, "or": lambda a, b: a or b, "not": lambda a: not a}
 
 
+PRE_HOOK = None      # called at the entry of every plain callable (used to force overlap of concurrent calls)
+
+
 class PlainRaises(Exception):
     pass
 
@@ -153,6 +156,8 @@ def build(P, attrs, name="top", is_async=False, mc=2, built=None, _counter=None)
             f = PLAIN[fname]
 
             def wrapper(*a, **kw):
+                if PRE_HOOK is not None:
+                    PRE_HOOK()
                 return f(*a, **kw)
             wrapper.__qualname__ = wrapper.__name__ = f"{name}_{fname}"
             fns[fname] = xn(wrapper, **attrs(f"{name}_{fname}"))
